@@ -266,7 +266,7 @@ PROPS = {
         ],
     },
     'C16': {
-        'v_units': ['variable', 'varset'],
+        'v_units': ['variable', 'varset', 'simplecmd'],
         'k_units': [],
         'level': 'proof',
         'explanation': (
@@ -286,7 +286,9 @@ PROPS = {
             'vanish at return while globals assigned inside persist"), its closure is verified against Vec::pop_if / HashMap::retain '
             'contracts; iter(scope) / Iter::next yield exactly the visible variables within the reach of the scope; env_c_strings only '
             'emits entries built from the name and current value of a visible exported variable (the formatting into a C string is '
-            'not verified). NOT decided: completeness of env_c_strings, ContextGuard, positional parameters, extend_env / init, and '
+            'not verified). Unit simplecmd (shared with C02): the assignments of a command that exports them (regular built-in, function, '
+            'external utility) are made in the volatile scope - they do not outlive the command -, those of a special built-in or of a command '
+            'without a name in the global scope (perform_assignments of simple_command.rs). NOT decided: completeness of env_c_strings, ContextGuard, positional parameters, extend_env / init, and '
             'everything the interpreter does with these operations (which scope a built-in, function or assignment uses).'),
         'trusted_base': ['Verus 0.2026.09.13 + Z3', '/verif/tools/vextract.py'],
         'assumptions': [
@@ -319,7 +321,7 @@ PROPS = {
         'assumptions': ['Mode::with_extensions only', 'two fixed option tables'],
     },
     'C02': {
-        'v_units': ['cmdsearch', 'looplevel', 'whileloop', 'condframe'],
+        'v_units': ['cmdsearch', 'looplevel', 'whileloop', 'condframe', 'simplecmd'],
         'k_units': ['loopcount'],
         'level': 'other',
         'explanation': (
@@ -347,7 +349,8 @@ PROPS = {
             'is zero) or (`||` and it is not), otherwise nothing runs and the status stays - left to right, equal precedence, because each '
             'element only looks at the status left by what ran before it; `!` inverts only the status (0 <-> 1 / non-zero -> 0) and only when '
             'the commands ended normally, a divert passes through un-inverted; the condition of if / while / until holds iff its last command '
-            'succeeded; the if command tries its conditions in order, runs a `then` branch only right after ITS condition held and the else '
+            'succeeded; (5) unit simplecmd (Verus): SimpleCommand::execute classifies the first field and runs exactly the executor for that '
+            'kind of target, once (the absent-target executor for a command without a name), nothing after a failed expansion; the if command tries its conditions in order, runs a `then` branch only right after ITS condition held and the else '
             'branch only after every condition failed, has the status and result of the branch it ran, and status 0 when it ran none. '
             'NOT decided: everything else C02 says - which commands run in which order with which $?, multi-command pipelines, '
             'for/case, functions and return, the decoding of Break/Continue diverts by for loops, the exit status of loops, the $PATH walk '
@@ -498,7 +501,7 @@ PROPS = {
         ],
     },
     'C10': {
-        'v_units': ['errexit', 'condframe', 'assignstatus'],
+        'v_units': ['errexit', 'condframe', 'assignstatus', 'simplecmd'],
         'k_units': ['errexit'],
         'level': 'other',
         'explanation': (
@@ -519,7 +522,8 @@ PROPS = {
             'each case the stack is as it was afterwards; the if command (compound_command/if.rs) evaluates its conditions - if and every '
             'elif alike - in exempt contexts and runs the chosen branch with the caller\'s own stack. Unit assignstatus (Verus): perform_assignments (yash-semantics/src/assign.rs) performs the '
             'assignments in order up to the first failure and returns the exit status of the LAST command substitution performed in any of them '
-            '(XCU 2.9.1: `x=$(false) y=1` fails), None if there was none. NOT decided: which commands consult '
+            '(XCU 2.9.1: `x=$(false) y=1` fails), None if there was none. Unit simplecmd: SimpleCommand::execute consults apply_errexit exactly '
+            'once after every simple command whose executor did not divert, and not after a failed expansion. NOT decided: which other commands consult '
             'apply_errexit, and the consequences-of-shell-errors table (special built-in errors, redirection errors, assignment errors, '
             'expansion errors): all of that is async interpreter code outside both tools.'),
         'trusted_base': ['Verus 0.2026.09.13 + Z3', 'Kani 0.68.0 + CBMC 6.11', '/verif/tools/vextract.py, /verif/tools/kunit.py'],
